@@ -11,8 +11,7 @@ TIME_LOCS = r"(datetime_of_first_point|scene_center_time|creation_datetime|/time
 def run(ses):
     records.check_unit(ses, "leader", ["times", "table", "frame"], only_locs=TIME_LOCS)
     records.check_unit(ses, "volume", ["table"], only_locs=TIME_LOCS)
-    for unit in ("image10s", "image11s"):
-        records.check_unit(ses, unit, ["times", "table", "frame"], only_locs=TIME_LOCS)
+    records.check_units(ses, ("image10s", "image11s"), ["times", "table", "frame"], only_locs=TIME_LOCS)
     validate_calendar_axioms(ses)
     ses.trust(*TRUST)
     ses.assume("datetime / timedelta / datetime64 arithmetic is integer arithmetic in µs / ns (exact)",
